@@ -103,7 +103,10 @@ def gen_scenario(rng):
     ops = []
     nopen = 0
     for _ in range(rng.randint(3, 12)):
-        k = rng.choice(["req", "req", "req", "open", "close", "tick", "srvclose"])
+        k = rng.choice(["req", "req", "req", "open", "close", "tick", "srvclose"] + (["req_rst"] if cfg["h2"] else []))
+        if k == "req_rst":
+            ops.append((k, rng.randint(0, 2)))      # HTTP/2: the server resets this request's stream; the connection stays usable
+            continue
         if k in ("req", "open"):
             if k == "open":
                 if nopen >= cfg["max_connections"]:
